@@ -441,12 +441,17 @@ def c08(K, Ns):
                         # whether a^e overflows varies with every digit
                         wraps = m in ("wrapping_pow", "overflowing_pow") or (m == "pow" and not K.debug)
                         # a form that returns a value only when a^e fits can only see base digits j with j * e < n
-                        js = (lambda k: range(k + 1)) if wraps else (lambda k: [j for j in range(k + 1) if j * e < n])
+                        js = (lambda k: range(k + 1)) if wraps else (lambda k: [j for j in range(k + 1) if j * e < n and k < (j + 1) * e])
                         req = [(vp + dig_path(A) + (k,), lab("a", js(k)), "digit %d of the power" % k) for k in range(n) if js(k)]
                         if m == "saturating_pow":
                             req = [(vp + dig_path(A) + (k,), lab("a", range(n)), "digit %d of the (possibly saturated) power" % k) for k in range(n)] if False else req
                         if fp is not None:
-                            req.append((fp, lab("a", range(n)), "the overflow flag / decision"))
+                            # a non-zero digit j with j * e >= n forces the power out of range (and the all-smaller bases fit), so the
+                            # flag certainly varies with those digits; the digits around the exact threshold 2^(BITS/e) matter too, but
+                            # whether the lowest ones do depends on e and n (a^2 overflows iff a >= 2^(BITS/2): digit-aligned for even n)
+                            hi_d = [j for j in range(n) if j * e >= n]
+                            if hi_d:
+                                req.append((fp, lab("a", hi_d), "the overflow flag / decision"))
                     out.append(row(K, "C08", fid, "N%d_e%d" % (n, e), sh, [val_of(A, "a"), ("c", e, "u32")], req, n))
     return out
 
@@ -908,7 +913,7 @@ def c18(K, Ns):
             for e in (1, 2, 3, 5):
                 fid = tr(A, NT + "PrimInt", [], "pow")
                 if exists(K, fid):
-                    js = (lambda k: [k]) if e == 1 else ((lambda k: range(k + 1)) if not K.debug else (lambda k: [j for j in range(k + 1) if j * e < n]))
+                    js = (lambda k: [k]) if e == 1 else ((lambda k: range(k + 1)) if not K.debug else (lambda k: [j for j in range(k + 1) if j * e < n and k < (j + 1) * e]))
                     out.append(row(K, "C18", fid, "N%d_e%d" % (n, e), sh, one + [("c", e, "u32")],
                                    [(dig_path(A) + (k,), lab("a", js(k)), "digit %d of the power" % k) for k in range(n) if js(k)], n))
             if sg:
